@@ -56,7 +56,7 @@ func c07Rules(c *Ctx) {
 	}
 	c07R3(env)
 	c07R3ErrChecked(env) // c07b.go
-	c07R4(env)
+	c07R4(env, "C07.R4")
 }
 
 // c07Matched describes generateMatchedSDP's section list and its loop over the remote m-sections.
@@ -636,9 +636,8 @@ func c06AssignedBeforeLoop(g *core.Graph, p *c06Populate) bool {
 	return true
 }
 
-func c07R4(env *c06Env) {
+func c07R4(env *c06Env, rule string) {
 	c, r := env.c, env.c.R
-	const rule = "C07.R4"
 	fi := env.addTr
 	em := c06Emissions(env, fi)
 	g := em.g
